@@ -52,7 +52,11 @@ def run(pid, tier, seed, *, emitters, extras, sig, rule, assumptions, trace_modu
             structs = recs
             recs = []
             for j in range(reps):
-                recs += prepare(structs, seed + 7919 * j)
+                more = prepare(structs, seed + 7919 * j)
+                for r in more:           # twin groups (lemmas of the oracle) are per seeded instance
+                    if j and isinstance(r, dict) and "group" in r:
+                        r["group"] = f"{r['group']}#rep{j}"
+                recs += more
         n_tlc = len(recs)
         recs += extras(seed)
         out = core.run_drivers("harness.drv_func:run_case", recs, x64=x64)
@@ -67,6 +71,8 @@ def run(pid, tier, seed, *, emitters, extras, sig, rule, assumptions, trace_modu
         out = flat
         if any("_many" in r or r.get("kind") in ("gradbatch", "sysgradbatch") for r in recs):
             n_tlc = sum(1 for o in out if o.get("src", "tlc") == "tlc")
+        if any(isinstance(o, dict) and o.get("group") is not None for o in out):
+            out.sort(key=lambda o: str(o.get("group") or ""))          # stable: twin groups become contiguous (never split over chunks)
         rej, acc, res = tracecheck.validate(trace_module, TRACE_CFG, out, sc, "tr" + pid, chunk=chunk)
         if any(isinstance(p, dict) and p.get("tag") == "LEMMA" for r in res for p in r.prints):
             raise core.MachineryError("a lemma of the oracle (twin records) does not hold: the specification is inconsistent")
